@@ -276,7 +276,8 @@ class C03(Prop):
             id = "C03"
 
             def scenarios(self_inner):
-                names = ("2x1_text_plain", "2x1_text_ping_deflate", "medium_vs_ping_plain", "large_vs_ping_plain",
+                # (two compressing senders: unmasking AND inflating in wire order must give back each caller's payload)
+                names = ("2x1_text_plain", "2x1_text_ping_deflate", "2x1_text_binary_deflate", "2x1_text_deflate", "medium_vs_ping_plain", "large_vs_ping_plain",
                          "large_vs_text_plain", "large_uncompressed_vs_ping_deflate", "large_incompressible_vs_ping_deflate",
                          "large_vs_autopong_plain")
                 return {n: c11.SCENARIOS[n] for n in names}
